@@ -20,6 +20,9 @@ CHECKS = {
  "C05": dict(cat="fault_enumeration", tech="exhaustive crash-point enumeration with monotonicity and reference-layout lower-bound oracles",
     text="The prefix sweep of C02 evaluated with: undamaged archive fully recovered with status EndOfOriginalArchiveData; r(n) <= r(n+1) for every adjacent pair of prefix lengths (implies all pairs); without compression, recovered bytes >= bytes present in the usable part of the stream computed from an independent block-stream layout (complete chunks only in authenticated mode). Plus ~6000 undamaged archives (all single-piece sizes x 3 entropies x levels, interleavings, program tree, many small entries) repaired at full length.",
     note="Scaled constants; production tier: windows plus a few undamaged archives of 4 MiB +- 1.", ref="3/C05"),
+ "C08": dict(cat="fault_enumeration", tech="exhaustive k<=1 (2,3) structured mutation enumeration with operation histories after an error, each input in an isolated worker process under catch_unwind, watchdog and counting allocator",
+    text="20 base archives (5 programs x 4 layer combos). k=1 exhaustive on archive bytes (every truncation; every byte x {8 bit flips, 00, FF, +-1}); k=1 structured on the decoded streams re-encoded with valid compression and valid AES-GCM tags (every integer field of block headers, file index, sizes table and length words x 12 boundary values; every block delete/duplicate/swap; offsets list = N copies of a foreign offset up to 300000; trailing garbage; footer splice); k=2 all pairs of hostile operators; k=3 triples (thorough). On each input: open, list, read all files (7-byte reads), get_hash, linear_extract, repair in both modes, and after the first failing call every sequence of up to 2 (3) further calls on the same reader, then drop. Oracle: every call returns (no panic, abort, signal, 60 s watchdog per call) and peak heap <= 256 MiB + 64 x input.",
+    note="Scaled constants; overflow checks on. Structured mutants are re-encrypted with the archive's own key by an independent implementation (equivalent to an attacker writing an archive for the victim's public key).", ref="3/C08"),
  "C09": dict(cat="model_checking", tech="complete call-sequence tree (valid and invalid calls) on the real writer in lock-step with a reference model with refusal rules; no state merging",
     text="All sequences of writer calls up to depth 3 (thorough 4) over start/append/end/add/flush/finalize with names {fresh, duplicate, empty, 65536, 65537 bytes}, ids {open, ended, never issued}, sizes {0,3}, sources {exact, short, long} (plus depth 6/8 over a reduced alphabet); every prefix is a case. Each call's Ok/Err is compared with the model; the sequence is then closed and the archive read back with the real reader and an independent block parser: it must equal the model in which refused calls are no-ops. A short source must never return Ok.",
     note="flush is treated as always accepted. Layers none (full depth) and both (depth-1).", ref="3/C09"),
